@@ -527,6 +527,9 @@ class StoreJudge:
             exp = room and not self.pending("put")
             if (w[1] == "true") != exp:
                 self.v("C11", f"can_put() = {w[1]} but a space reservation issued now would{'' if exp else ' not'} be granted at once", "probe")
+                # the probe a non-blocking node decides on: true without room = it will wait, false with room = it will drop (C09, edge side)
+                self.v("C09", f"can_put() = {w[1]} but a space reservation issued now would{'' if exp else ' not'} be granted at once: a non-blocking "
+                              f"node that probes this edge {'drops an item although there is room' if exp else 'waits with a finished item'}", "probe")
         elif op[1] == "can_get" and self.quiescent:
             exp = len(self.available()) > len(self.granted("get")) and not self.pending("get")
             if (w[1] == "true") != exp:
